@@ -53,6 +53,15 @@ BUILT = {
          "generated code, TLC; logical operators only over boolean operands; paths are excused only for node kinds "
          "they document as unsupported (NotImplementedError on Comparison/Min/Max/CSE in to-AST)",
          "TLC-generated trees x argument lists, generated code executed, TLC-judged against the denotation"),
+ "C11": ("TLC enumerates the polynomial/rational fragment (three levels over a reduced alphabet) and trees of other "
+         "node kinds over polynomial children, checks ring laws of the normal-form oracle on every generated tree, and "
+         "judges what flatten, both constant folders, the term collector and distribute/expand (commutative, "
+         "non-commutative, with parameters) really returned: value preservation decided per instance by exact "
+         "rational-function normal form (Poly.tla), Eval on a box for non-polynomial kinds, the shape post-conditions "
+         "of the statement (flat, at most one constant, expanded, like terms merged) and 'does not fail on its fragment'.",
+         "trusted: Poly.tla (exact arithmetic over Q with 32-bit overflow guard: guarded cases are skipped and counted), "
+         "PyNum/Eval, TLC; the A-layer transcription of the rewrite algorithms is not part of this check",
+         "TLC-generated inputs, recorded rewrite results, TLC-judged by rational-function normal form and shape predicates"),
 }
 
 REASON_NOT_YET = "check not built yet in this round (planned, see DESIGN.md section 13)"
